@@ -192,7 +192,10 @@ JudgeGen(e) ==
                    /\ (FIsZero(a[3]) /\ FIsFinite(a[2]) => \A i \in 1..Len(e.ret.v) : FEq(e.ret.v[i], a[2]))
          \* args <<min, max>> mirror the configuration of the state the call ran in
          [] m = "random_integer" -> IF a[1] < a[2] THEN e.ret.t = "some" /\ e.ret.v >= a[1] /\ e.ret.v < a[2] ELSE RetEq(e.ret, RNone)
-         [] m = "random_float" -> IF FLt(a[1], a[2]) THEN e.ret.t = "some" /\ ~FLt(e.ret.v, a[1]) /\ FLt(e.ret.v, a[2]) ELSE RetEq(e.ret, RNone)
+         \* an infinite bound admits no uniform value: nothing (or a value inside the interval), never a crash
+         [] m = "random_float" -> IF FLt(a[1], a[2]) /\ FIsFinite(a[1]) /\ FIsFinite(a[2]) THEN e.ret.t = "some" /\ ~FLt(e.ret.v, a[1]) /\ FLt(e.ret.v, a[2])
+                                  ELSE IF FLt(a[1], a[2]) THEN RetEq(e.ret, RNone) \/ (e.ret.t = "some" /\ ~FLt(e.ret.v, a[1]) /\ FLt(e.ret.v, a[2]))
+                                  ELSE RetEq(e.ret, RNone)
          [] m = "random_float_many" -> \A i \in 1..Len(e.ret.v) : ~FLt(e.ret.v[i], a[1]) /\ FLt(e.ret.v[i], a[2])
          \* min is produced, max never (the number of draws makes a miss of min less likely than 1e-12)
          [] m = "random_integer_stats" -> IF a[1] < a[2] THEN e.ret.v.count = a[3] /\ e.ret.v.min = a[1] /\ e.ret.v.max = a[2] - 1
